@@ -340,6 +340,11 @@ class VMNetconfig(object):
                 "network %s (%s)"
                 % (interface.ip, interface.params["netmask"], self.net_ip, self.netmask)
             )
+        if interface_net_ip == self.net_ip and interface.ip in self.interfaces.keys():
+            raise IndexError(
+                "Interface %s uses an address that is already taken in the "
+                "network %s" % (interface.ip, self.net_ip)
+            )
         return interface_net_ip == self.net_ip
 
     def validate(self) -> None:
